@@ -114,6 +114,12 @@ def run_fault_scenario(seed, sc, ctx, workdir, replay_tape=None):
             res["keys"].append(hashlib.sha1(repr((sc["params"], where, sig)).encode()).hexdigest()[:16])
         return res
     c = canon.compare_fronts(ref.front, rr.front)
+    if c and c[0] == "representative":
+        from checks.c20_cache import _split_only
+        if _split_only(C, sc["params"], cfg, workdir, ref.front):
+            res["violations"].append(_viol("representative", "split_in_half", c[1] + " [disappears when the "
+                                           "join's worker-count dependent group splitting is disabled]", sc, cfg, tape))
+            return res
     if c:
         res["violations"].append(_viol(
             f"fault_{c[0]}", f"{kind}:{where}", f"fault {kind} at {where} did not make the call raise, and "
